@@ -325,12 +325,25 @@ def run(rep, tier):
             fp_obligations(e, n)
         rounding_left_knot(e)
     e.finish()
+    # larger knot counts (exact arithmetic) as parallel parts: a rule that only goes wrong from the 5th knot on (blocks, windows,
+    # a cache that is refreshed every k knots) is outside n <= 4
+    big = [5, 6, 8] if tier == "quick" else [5, 6, 8, 10]
+    rep.bounds["knots_exact_parts"] = big
+    import parallel
+    parallel.run_parts(rep, tier, ["exact:%d" % n for n in sorted(big, reverse=True)], mir_text=e.mir_text, sources=e.sources)
     try:
         from props.e1util import run_e1
         from props.c16 import linear_structure_specs
         run_e1(rep, linear_structure_specs(tier))
     except ImportError:
         pass
+
+
+def run_part(rep, tier, part):
+    _, n = part.split(":")
+    e = E2(rep, tier)
+    exact_obligations(e, int(n))
+    e.finish()
 
 
 def replay(path):
